@@ -91,6 +91,22 @@ def gen_cases(tier, seed):
             for r in range(4):
                 cases.append(dict(base, prob=ppool, cfg=cpool, kind='every_k', residue=r, R=4, deep=True, stride=3,
                                   i=len(cases)))
+        if j % 4 == 2:
+            # sixteen separated modes and split_threshold=1: the outer unions of the bounds hold more than ten ellipsoids,
+            # each with its own record in the checkpoint; the resumed sampler must get them back in the same order
+            pmany = workloads.gen_problem(rng, family='mixture', d=2, prior='func', blobs='none', vectorized=True)
+            lo, w = np.array(pmany['lo']), np.array(pmany['hi']) - np.array(pmany['lo'])
+            grid = [(0.14 + 0.24 * a + float(rng.uniform(-0.02, 0.02)), 0.14 + 0.24 * b + float(rng.uniform(-0.02, 0.02)))
+                    for a in range(4) for b in range(4)]
+            pmany['par'] = dict(pmany['par'], mus=[(lo + w * np.array(g)).tolist() for g in grid],
+                                sigs=[(w * 0.012).tolist() for _ in grid])
+            cmany = workloads.gen_cfg(rng, pmany, pool='none', n_batch=100, networks=0, filepath=True)
+            cmany.update(n_live=800, f_live=0.05, n_shell=1, n_eff=1500 if tier == 'quick' else 5000, n_update=None,
+                         n_like_new_bound=None, periodic=None, discard_exploration=False, split_threshold=1.0,
+                         n_points_min=20, enlarge_per_dim=1.1)
+            for r in range(2 if tier == 'quick' else 4):
+                cases.append(dict(base, prob=pmany, cfg=cmany, kind='every_k', residue=r, R=4, deep=True, stride=6,
+                                  many=True, i=len(cases)))
         cases.append(dict(base, kind='multi', i=len(cases)))
         cases.append(dict(base, kind='toggle', i=len(cases)))
     return cases
@@ -154,7 +170,7 @@ def run_case(spec):
     nb = cfg['n_batch']
     cap = 60 * nb + 40 * cfg['n_live'] + (1500 if cfg['n_update'] == 1 else 0) + (40000 if spec.get('deep') else 0) + (150000 if spec.get('stride') else 0)
     RR = spec.get('R', R)
-    obs = dict(started_over_stale_file=0, resumes_compared=0, sliced_runs_compared=0, batches_in_reference_max=0, fresh_process_resumes=0,
+    obs = dict(union_members_max=0, started_over_stale_file=0, resumes_compared=0, sliced_runs_compared=0, batches_in_reference_max=0, fresh_process_resumes=0,
                phase={'exploration': 0, 'bound_insertion_next': 0, 'end_of_exploration': 0, 'sampling': 0},
                points_checked_for_double_evaluation=0, multi_histories=0, toggle_histories=0, stops=0)
     viols = []
@@ -187,6 +203,7 @@ def run_case(spec):
         d_ref, n_ref = result_digest(ref), int(ref.n_like)
         K = n_ref // nb
         obs['batches_in_reference_max'] = K
+        obs['union_members_max'] = max([len(b.outer_bound.bounds) for b in ref.bounds if hasattr(b, 'outer_bound')] or [0])
 
         if spec['kind'] == 'every_k':
             # ------------ in-memory slicing at every batch boundary, copying the checkpoint each time
